@@ -180,7 +180,9 @@ def opt_jobs(ck, behs, quick):
     o = {"fd": True, "compression_rank": k, "reuse": True, "S": 1, "P": 1, "Start": 1 + gi % 3,
          "beta2": b, "matrix_epsilon": float(c["ridge"]), "relative_eps": c["ridge"] == 0,
          "merge": False, "block_size": 16, "graft": ["SGD", "RMSPROP", "ADAGRAD"][gi % 3],
-         "beta1": [0.0, 0.5][gi % 2], "metrics": bool(gi % 2)}
+         "beta1": [0.0, 0.5][gi % 2], "metrics": bool(gi % 2),
+         # window of one step with the gradient-averaging accumulator on: what enters the sketch is still g_t
+         "average_grad": (gi // 2) % 2 == 1}
     if k + 2 < D:
       jobs.append({"impl": "dsrun", "o": o, "shape": shapes[gi % 3], "behs": sel, "tol": TOL32,
                    "seed": ck.seed * 31 + gi, "mixed": False})
